@@ -28,8 +28,8 @@ def _apply_rules_ref(sp, state, t=0.0, vol=1.0):
     st_ = dict(state)
     params = dict(sp["params"])
     for rl in sp.get("rules", []):
-        if rl.get("freq", "repeated") not in ("repeated", "repeat"):
-            continue
+        if rl.get("freq", "repeated") not in ("repeated", "repeat", "dt"):
+            continue          # ("dt": once per time step, the first of them at the start - like a repeated rule in row 0)
         env = dict(params)
         env.update(st_)
         v = ref.eval_tree(rl["tree"], env, t, vol)
@@ -82,6 +82,18 @@ def check(case):
             kwargs["Interface"] = ModelCSimInterface(M)
         else:
             kwargs["Interface"] = SafeModelCSimInterface(M)
+        route = sp.get("state_route", "model")
+        if "Interface" in kwargs and route != "model":
+            # the pre-built interface was given its initial state explicitly (as inference and lineage code do): molecule
+            # counts as an integer array, or a buffer the caller re-uses afterwards - the interface keeps its own copy
+            x0v = specmod.state_vector(M, sp["x0"])
+            if route == "int_array":
+                kwargs["Interface"].py_set_initial_state(x0v.astype(int))
+            else:
+                buf = x0v.copy()
+                kwargs["Interface"].py_set_initial_state(buf)
+                buf[:] = 77.0
+            res.label("interface_state_set_explicitly:" + route)
     py_seed_random(case["seed"])
     vol_off = vol in ("off", "off_numpy_bool")
     volume_used = (not vol_off) and (opt["stochastic"] or bool(opt["delay"]))
@@ -234,9 +246,10 @@ def models(draw, flags=None):
             tree.append(["mul", gen.num(2.0), ["add", ["t"], gen.num(1.5)]])
         if extra in ("volume", "both"):        # ... and the volume (1 where no volume is in play)
             tree.append(["mul", gen.num(3.0), ["vol"]])
-        b.rules.append({"type": "assignment", "eq": f"{tot} = {ref.show(tree)}", "freq": "repeated", "tree": tree,
-                        "dest": tot})
+        b.rules.append({"type": "assignment", "eq": f"{tot} = {ref.show(tree)}",
+                        "freq": draw(st.sampled_from(["repeated", "repeated", "dt"])), "tree": tree, "dest": tot})
     sp = b.spec(x0)
+    sp["state_route"] = draw(st.sampled_from(["model", "model", "int_array", "reused_buffer"]))
     return sp
 
 
